@@ -55,7 +55,8 @@ RULE = (
 ASSUMPTIONS = [
     "fingerprints cover the owning buffers (the larger base array for views; every buffer of every chunk for Arrow; codes and categories for categoricals)",
     "the client only writes where the result object says it is writable (it does not force the writeable flag of a read-only view)",
-    "tasks are atomic: a write by a task is detected after the task, not interleaved with a sibling",
+    "task bodies are atomic in the task-atomic pool model and pre-empted only at Python line events of groupby_lib frames in the pre-emptive model (one fault-free run in three); compiled kernels and pandas / NumPy calls are never split; in the atomic model a write by a task is detected after the task (shared-write monitor), in the pre-emptive model through the fingerprints after the call",
+    "statement-level faults are line-granular (DESIGN 9.4)",
 ]
 EXPECTED_PROBES = ["zero_copy_container", "readonly_input", "scribble", "scribbled_raw_ndarray", "scribbled_pandas_setter", "repeat_after_scribble", "failing_step_checked", "pools_ge2"]
 
